@@ -48,7 +48,7 @@ def run(ctx):
         rule="a case is a generated dependency graph (2-9 constants/functions over 4 modules, DAG + function-only cycles, "
              "or with an injected constant cycle / transitive context use; constants of 6 types, context reads in 13 use-site "
              "forms, local compound values, several read sites of one constant on different paths in 7 shapes, context reads inside / "
-             "behind rings of mutually recursive functions) in one of 4 declaration orders; the first 422 graphs of every run are class "
+             "behind rings of mutually recursive functions) in one of 4 declaration orders; the first 431 graphs of every run are class "
              "representatives (form x distance tables, read-site shape x type x place, ring x entry x name-order x module pattern); a "
              "class is distinct by (expected outcome, observed outcome, #constants, #functions, #edges, function-cycle present, "
              "#modules used, order variant, compound type present, context form, where the SCC pass entered a ring with a context "
